@@ -798,7 +798,9 @@ func (m *Monitors) checkPrune(r *Result) {
 		}
 		if b.NotBeforeID != a.NotBeforeID {
 			p := r.Before[b.NotBeforeID]
-			if p != nil && isOpenRow(p, now) {
+			sub := r.SubsBefore[b.SubscriptionID]
+			// only on a live subscription does the link matter (deliveries of a deleted subscription are dead)
+			if p != nil && isOpenRow(p, now) && sub != nil && sub.DeletedAt == nil {
 				m.fire("C15", "prune-unblocked", "%s removed the predecessor link of delivery %s although the predecessor is outstanding", r.Op.K, id)
 			}
 		}
